@@ -10,7 +10,7 @@
  *   KSHIM_CLOCK=<base_ns>:<tick_ns>  CLOCK_REALTIME returns base + k*tick on its k-th read
  *   KSHIM_NOATIME=1           add O_NOATIME to tracked opens (emulates "no automatic atime")
  *   KSHIM_GRAN_NS=<g>         truncate timestamps set/read on tracked files to multiples of g
- *   KGATE_OUT=<fd> KGATE_IN=<fd>   before every tracked call write "AT <tid> <call> <path>\n"
+ *   KGATE_OUT=<fd> KGATE_IN=<fd>   before every tracked call write "AT <seq> <tid> <call> <path>\n"
  *                             to KGATE_OUT and block until one byte arrives on KGATE_IN
  *
  * Log line:  <seq> <tid> <call> <args...> = <ret> <errno-name|->
@@ -123,7 +123,7 @@ static int pre(const char *call, const char *path, long *myseq) {
     pthread_mutex_unlock(&mu);
     *myseq = n;
     if (gate_out >= 0 && gate_in >= 0) {
-        char b[4400]; int l = snprintf(b, sizeof b, "AT %ld %s %s\n", (long)syscall(SYS_gettid), call, path ? path : "-");
+        char b[4400]; int l = snprintf(b, sizeof b, "AT %ld %ld %s %s\n", n, (long)syscall(SYS_gettid), call, path ? path : "-");
         ssize_t (*rw)(int, const void *, size_t) = dlsym(RTLD_NEXT, "write");
         ssize_t (*rr)(int, void *, size_t) = dlsym(RTLD_NEXT, "read");
         rw(gate_out, b, l);
@@ -481,4 +481,16 @@ int clock_gettime(clockid_t id, struct timespec *ts) {
 }
 
 /* Lets the harness suspend tracking (planting, snapshots, its own bookkeeping). */
+/* A gate point of the harness itself (operation begin / return), so that the
+   scheduler knows where operations start and end in its global order. */
+void kshim_note(const char *s) {
+    init();
+    if (gate_out >= 0 && gate_in >= 0) {
+        char b[600]; int l = snprintf(b, sizeof b, "NOTE %ld %s\n", (long)syscall(SYS_gettid), s);
+        ssize_t (*rw)(int, const void *, size_t) = dlsym(RTLD_NEXT, "write");
+        ssize_t (*rr)(int, void *, size_t) = dlsym(RTLD_NEXT, "read");
+        rw(gate_out, b, l);
+        char c; while (rr(gate_in, &c, 1) < 0 && errno == EINTR) {}
+    }
+}
 void kshim_pause(int on) { if (on) in_shim++; else if (in_shim > 0) in_shim--; }
